@@ -289,3 +289,7 @@ mod tests {
         assert_eq!(s.sample(&tex, uv(0.5, 0.5)), rgb(0xFF, 0xFF, 0));
     }
 }
+
+#[cfg(kani)]
+#[path = "/verif/kani/tex.rs"]
+pub(crate) mod verif_kani;
